@@ -41,12 +41,14 @@ def main() -> None:
             })
         else:
             na.append({"property_id": pid, "reason": PENDING.get(pid, "check not built yet in this round (runtime monitoring applies; see DESIGN.md)")})
-    fixes = []
+    fixes = []; opened = []
     kf = os.path.join(VERIF, "known_findings.json")
     if os.path.exists(kf):
         for e in json.load(open(kf)):
             if str(e.get("status", "")).startswith("fixed"):
                 fixes.append(e["status"])
+            elif e.get("status") == "open":
+                opened.append(f"open: property={e['property']} key={e['key']} {e.get('what', '')[:400]}")
     m = {
         "version": 1,
         "setup_cmd": "./setup",
@@ -66,7 +68,9 @@ def main() -> None:
         ],
         "checks": checks,
         "notes": "All checks import pyoda_time from /repo (VERIF_REPO overrides) via PYTHONPATH with ICU on the loader path of the worker only. "
-                 "Exit 0 held-on-observed, 1 violation (VIOLATION line + replay file), 2 inconclusive. fix: commits in /repo: "
+                 "Exit 0 held-on-observed, 1 violation (VIOLATION line + replay file), 2 inconclusive. Known-findings file: known_findings.json "
+                 "(read only at run time; open entries are printed as KNOWN-FINDING lines and do not fail the check). Open findings: "
+                 + ("; ".join(opened) if opened else "none") + ". fix: commits in /repo: "
                  + ("; ".join(fixes) if fixes else "none yet"),
         "not_applicable": na,
     }
